@@ -1,6 +1,8 @@
 package analyzer
 
 import (
+	"go/ast"
+	"go/parser"
 	"go/token"
 	"go/types"
 	"sync"
@@ -20,11 +22,18 @@ func gsxC04Native() {
 		registeredCheckers = []*linter.CheckerInfo{gsxRegisterQuiet("gsxQ")}
 		flagGoVersion, flagEnable, flagDisable, flagEnableAll, flagDebugInit = "", "#style", "", false, false
 		var wg sync.WaitGroup
+		// as under a real driver: one file set for all passes, one package (one file) per pass
+		fset := token.NewFileSet()
 		for k := 0; k < 4; k++ {
+			f, err := parser.ParseFile(fset, "/w/p"+string(rune('0'+k))+"/a.go", "package p\n\nfunc f() {}\n", parser.ParseComments)
+			if err != nil {
+				panic(err)
+			}
+			pkg := types.NewPackage("p"+string(rune('0'+k)), "p")
 			wg.Add(1)
 			go func() {
 				defer wg.Done()
-				pass := &analysis.Pass{Analyzer: Analyzer, Fset: token.NewFileSet(), TypesInfo: &types.Info{}, TypesSizes: types.SizesFor("gc", "amd64"),
+				pass := &analysis.Pass{Analyzer: Analyzer, Fset: fset, Files: []*ast.File{f}, Pkg: pkg, TypesInfo: &types.Info{}, TypesSizes: types.SizesFor("gc", "amd64"),
 					Report: func(analysis.Diagnostic) {}}
 				runAnalyzer(pass)
 			}()
